@@ -12,6 +12,10 @@ except ImportError:
 __all__ = ['run_timeout']
 
 
+class _LimitReached(Exception):
+    pass
+
+
 def run_timeout(seconds: float, func, *args, **kwargs):
 
     # Use native thread pool of gevent, as patched threads behave like cooperative greenlets,
@@ -19,25 +23,37 @@ def run_timeout(seconds: float, func, *args, **kwargs):
     if gevent is not None and gevent.monkey.is_module_patched('threading'):
         raise RuntimeError('Time limiter not compatible with monkey-patched gevent threading module!')
 
+    def _call():
+        # Also transport exceptions that are not Exception subclasses (they would silently end the worker thread)
+        try:
+            return True, func(*args, **kwargs)
+        except BaseException as e:
+            return False, e
+
     def _inner_run():
         with multiprocessing.pool.ThreadPool(processes=1) as pool:
             thread = pool.apply(lambda: threading.current_thread())
 
-            try:
-                return pool.apply_async(func, args, kwargs).get(timeout=seconds)
-            except multiprocessing.TimeoutError:
-                pass
+            # Only not being ready in time is a timeout: an exception of the function itself (which may well be a
+            # TimeoutError) is re-raised as it is
+            result = pool.apply_async(_call)
+            result.wait(seconds)
+            if result.ready():
+                success, value = result.get()
+                if success:
+                    return value
+                raise value
 
         if thread.is_alive():
             ctypes.pythonapi.PyThreadState_SetAsyncExc(
                 ctypes.c_long(thread.ident), ctypes.py_object(KeyboardInterrupt))
             thread.join()
-        raise TimeoutError
+        raise _LimitReached
 
     # This call flow ensure that the memory of the "killed" thread is cleared
     try:
         return _inner_run()
-    except TimeoutError:
+    except _LimitReached:
         pass
     gc.collect()
     raise TimeoutError
